@@ -543,7 +543,7 @@ void run_proj(const Workload& w, Ctx& X) {
 void run_repack(const Workload& w, Ctx& X) {
   EncH enc;
   if (enc.open(X, w.cfg, w.inplace) != OPUS_OK) { X.harness_err++; return; }
-  OpusRepacketizer* rp;
+  OpusRepacketizer* rp = nullptr;
   bool rp_inplace = w.inplace;
   auto rp_open = [&](bool inpl) {
     rp_inplace = inpl;
@@ -688,7 +688,7 @@ int gen_dur(Choice& c, int lo, int hi) {     // duration index, 3 = 20 ms
   return c.irange(lo, hi);
 }
 
-void gen_workload(Choice& c, Workload& w, int& budget) {
+void gen_workload(Choice& c, Workload& w, int budget) {
   static const int KW[NKINDS] = {5, 5, 2, 3, 1};
   w.kind = c.weighted(KW, NKINDS);
   w.inplace = c.chance(96);
@@ -747,8 +747,13 @@ void gen_workload(Choice& c, Workload& w, int& budget) {
     switch (op.type) {
       case OP_CODE: case OP_LOSS: case OP_FEC: {
         int d = w.kind == K_REPACK ? w.rp_dur : (w.kind == K_MS || w.kind == K_PROJ) ? gen_dur(c, 0, 3) : gen_dur(c, 0, 5);
-        int cost = cu::DUR400[d] * (op.type == OP_FEC ? 2 : 1) * (single ? 1 : w.channels > 2 ? (w.channels + 1) / 2 : 1);
-        if (cost > budget) { d = (single || budget >= 8 * ((w.channels + 1) / 2)) ? 3 : 0; if (op.type == OP_FEC) op.type = OP_CODE; cost = cu::DUR400[d]; }
+        const int weight = single ? 1 : (w.channels + 1) / 2;      // streams coded per frame
+        int cost = cu::DUR400[d] * (op.type == OP_FEC ? 2 : 1) * weight;
+        if (cost > budget) { if (op.type == OP_FEC) op.type = OP_CODE; if (w.kind != K_REPACK) d = 3; cost = cu::DUR400[d] * weight; }
+        if (cost > budget) {             // audio budget of this thread is used up: a cheap operation instead
+          if (single) gen_enc_ctl(c, w.cfg.ch, true, op); else { op.type = OP_GET; op.a = c.irange(0, 7); }
+          break;
+        }
         budget -= cost;
         op.a = d;
         op.b = c.irange(0, 2);                  // input format: int16, float, int24
@@ -803,7 +808,9 @@ int vp_case(Choice& c, Report& rep) {
   { int b = c.byte(); cap = b < 100 ? 255 : b < 175 ? 0 : 1 + (b % 4); }
   const bool staggered = c.chance(90);     // otherwise every thread makes its first library call right after the rendezvous
   std::vector<Workload> wl((size_t)T);
-  int budget = 8 * 40;                    // total audio per case, in 2.5 ms units weighted by stream count (keeps TSan cases short)
+  // audio budget per thread in 2.5 ms units weighted by the number of streams: about 1.2 s of single-stream
+  // audio per case in total, at least four 20 ms frames per thread (keeps the TSan cases short)
+  const int budget = 480 / T > 32 ? 480 / T : 32;
   uint64_t fp = mix(T, cap);
   int kinds_seen[NKINDS] = {0};
   for (int t = 0; t < T; t++) {
